@@ -1307,10 +1307,13 @@ class Compiler:
         fallback_body += self._leave_assignment(names)
 
         # The error records collected while the exception came up
-        # through macro calls end here.
+        # through macro calls end here.  (No expression of this
+        # function may have been evaluated yet: the token is unset when
+        # the exception comes out of a macro rendered in place.)
         error_assignment = template(
             "rcontext.pop('__error__', None)\n"
-            "econtext[key] = cls(__exc, __tokens[__token][1:3])\n"
+            "econtext[key] = cls(__exc, __tokens.get("
+            "__token, (None, None, None))[1:3])\n"
             "if handler is not None: handler(__exc)",
             cls=ErrorInfo,
             handler=load("on_error_handler"),
